@@ -66,13 +66,26 @@ def apply_simple_adc(
     1. Rounds the normalized values to the nearest integer using truncation.
     1. Converts the resulting array to the specified data type (dtype).
     """
-    output = (
-        (np.clip(signal, a_min=voltage_min, a_max=voltage_max) - voltage_min)
-        * (2**bit_resolution - 1)
-        / (voltage_max - voltage_min)
+    clipped = np.clip(signal, a_min=voltage_min, a_max=voltage_max)
+    full_scale: int = 2**bit_resolution - 1
+
+    output = np.trunc(
+        (clipped - voltage_min) * full_scale / (voltage_max - voltage_min)
     )
 
-    return np.trunc(output).astype(dtype)
+    # Largest float that does not exceed the full scale
+    # ('2**bit_resolution - 1' is not representable as a float above 53 bits)
+    max_float = float(full_scale)
+    if max_float > full_scale:
+        max_float = float(np.nextafter(max_float, 0.0))
+
+    result = np.minimum(output, max_float).astype(dtype)
+
+    # A voltage at (or above) the range maximum gives exactly the full scale,
+    # whatever the rounding errors in the normalization.
+    result[clipped >= voltage_max] = np.array(full_scale, dtype=np.uint64).astype(dtype)
+
+    return result
 
 
 def simple_adc(
